@@ -21,7 +21,10 @@ def interface(d):
         s = []
         for it in ff.find('sentree'):
             s.append((it.get('edgeType'), it[0].get('name') if len(it) else None))
-        sens.append((tuple(sorted(m_ for m_ in vlxml.lhs_names(ff))), tuple(sorted(s))))
+        drv = tuple(sorted(m_ for m_ in vlxml.lhs_names(ff)))
+        if not drv:
+            continue        # a clocked block that drives nothing (simulation-only checker): no part of the state interface
+        sens.append((drv, tuple(sorted(s))))
     return ports, regs, sorted(sens)
 
 
@@ -45,6 +48,7 @@ def summarize(d, byte, rst, symbolic_instr=False):
     nxt, writes = ev.next_state(ev.root)
     for k, v in nxt.items():
         out["next(%s)" % k] = v
+    writes = [w_ for w_ in writes if not str(w_[0]).startswith('$')]      # simulation tasks are neither outputs nor state (the property's terms)
     if writes:
         out['array-writes'] = writes
     for n, (dr, w) in ports.items():
